@@ -121,7 +121,7 @@ def pair_cases(draw):
     else:
         alg = draw(st.sampled_from(SCALABLE_HEURISTICS + ["multifit", "multifit"] + EXACT))
     if alg in sut.PARTITIONERS:
-        case = draw(cases.partition_cases(algs=[alg], presentations=["list", "list", "dict-str", "array"], max_bins=5,
+        case = draw(cases.partition_cases(algs=[alg], presentations=["list", "list", "dict-str", "array", "names-array"], max_bins=5,
                                           profiles=["tiny", "small", "small", "small", "medium", "large", "two-valued", "one-dominant",
                                                     "planted", "arithmetic"], max_len=14))
         if alg == "cbldm":
@@ -132,13 +132,13 @@ def pair_cases(draw):
         # bin completion on planted instances where best-fit-decreasing is not optimal, so that its search really runs
         C = draw(st.sampled_from([12, 20, 30, 50, 100]))
         fam, values, _ = draw(S.hard_packing(C, max_bins=3, max_len=10))
-        case = {"alg": "bc", "values": values, "binsize": C, "pres": draw(st.sampled_from(["list", "list", "dict-str", "array"])),
+        case = {"alg": "bc", "values": values, "binsize": C, "pres": draw(st.sampled_from(["list", "list", "dict-str", "array", "names-array"])),
                 "nseed": draw(st.integers(0, 5)), "profile": "bc-" + fam}
     elif alg in sut.PACKERS:
-        case = draw(cases.packing_cases(algs=[alg], presentations=["list", "list", "dict-str", "array"], eighths=False,
+        case = draw(cases.packing_cases(algs=[alg], presentations=["list", "list", "dict-str", "array", "names-array"], eighths=False,
                                         max_len=11 if alg == "bc" else 20))
     else:
-        case = draw(cases.covering_cases(algs=[alg], presentations=["list", "list", "dict-str", "array"], max_len=20))
+        case = draw(cases.covering_cases(algs=[alg], presentations=["list", "list", "dict-str", "array", "names-array"], max_len=20))
     if alg in EXACT and alg != "bc" and draw(st.integers(0, 2)) == 0:
         case["out"] = "Sums"
     if kind == "perm":
